@@ -397,6 +397,12 @@ impl Cache {
                         c.chars()
                             .all(|c| c.is_ascii_digit() || ('a'..='f').contains(&c))
                     })
+                    // ... and which are located where the cache stores them (`<type>/<first 2 hex chars>/<id>`):
+                    // other files are not cache entries - they can be neither read nor removed by id.
+                    && e.depth() == 2
+                    && e.path().parent().and_then(Path::file_name).is_some_and(|dir| {
+                        dir.as_encoded_bytes() == &e.file_name().as_encoded_bytes()[0..2]
+                    })
             })
             .map(|e| {
                 (
